@@ -1528,3 +1528,44 @@ for _q, _cls, _path_attr, _fields in (
                raises={ArbitraryException: {'ensures': lambda exc, trace:
                [e[2] for e in trace if e[0].endswith(':raised')] == [exc]}},
                raises_only=())
+
+
+# ----- symbol usages: an instruction reports the references of ALL its arguments (a reference that is not reported is
+# not checked by validate_symbol_usages: an undefined or wrongly typed symbol would show only during execution)
+
+def _refs(*sdvs):
+    out = []
+    for s in sdvs:
+        out += list(s.references)
+    return out
+
+
+M.contract(P_I + 'multi_phase.new_file:_TheInstructionEmbryo.symbol_usages',
+           params=dict(self=Inst(new_file._TheInstructionEmbryo, _path_to_create=Iface(PathSdvI),
+                                 _file_maker=Iface(SdvOfDdvWithValidatorI), _validator=Any_)),
+           ensures={'the references of the path and of the contents -- all of them; runs nothing': lambda self, result, trace:
+           list(result) == _refs(self._path_to_create, self._file_maker) and trace == []}, inline=True, raises_only=())
+
+M.contract(P_I + 'multi_phase.copy:_CopySourceWithExplicitDestinationInstruction.symbol_usages',
+           params=dict(self=Inst(copy_instr._CopySourceWithExplicitDestinationInstruction,
+                                 source_path=Iface(CheckedPathSdvI), destination_path=Iface(PathSdvI), _validator=Any_)),
+           ensures={'the references of the source and of the destination -- all of them; runs nothing':
+                    lambda self, result, trace:
+                    list(result) == _refs(self.source_path, self.destination_path) and trace == []}, inline=True, raises_only=())
+
+M.contract(P_I + 'multi_phase.copy:_CopySourceWithoutExplicitDestinationInstruction.symbol_usages',
+           params=dict(self=Inst(copy_instr._CopySourceWithoutExplicitDestinationInstruction,
+                                 source_path=Iface(CheckedPathSdvI), _validator=Any_)),
+           ensures={'the references of the source; runs nothing': lambda self, result, trace:
+           list(result) == _refs(self.source_path) and trace == []}, inline=True, raises_only=())
+
+for _q, _shape, _attr in (
+        ('multi_phase.change_dir:InstructionEmbryo', Inst(change_dir.InstructionEmbryo, destination=Iface(PathSdvI)),
+         'destination'),
+        ('multi_phase.environ.impl:TheInstructionEmbryo',
+         Inst(env_impl.TheInstructionEmbryo, _phases=Any_, _modifier=Iface(SdvOfDdvWithValidatorMethodI)), '_modifier'),
+        ('multi_phase.utils.instruction_from_parts_for_executing_program:TheInstructionEmbryo',
+         Inst(_exe_program.TheInstructionEmbryo, _program=Iface(SdvOfDdvWithValidatorI)), '_program')):
+    M.contract(P_I + _q + '.symbol_usages', params=dict(self=_shape), ghosts=dict(attr=Const(_attr)),
+               ensures={'the references of its argument; runs nothing': lambda self, attr, result, trace:
+               list(result) == _refs(getattr(self, attr)) and trace == []}, inline=True, raises_only=())
